@@ -15,7 +15,7 @@ pub const THR: [f64; 7] = [0.0, 0.05, 0.3, 0.5, 0.7, 0.95, 1.0];
 
 pub fn run(tier: Tier) -> i32 {
     let rep = Report::new("C11", tier, "model_checking");
-    rep.set_rule("SCOPE: F0-stream thresholds {0,.05,.3,.5,.7,.95,1} x (default + every single deviation of the other streams' thresholds {0,1} and of every stream's GV weight {0,2}) x voices (V0, P1..P3, generated with voicing weights straddling the lattice) x utterances; trajectories via hook 1; oracle: frame voiced iff msd(state(frame)) > threshold[1] with msd from Models::model_stream(1), voiced sets nested along the thresholds, spectrum/low-pass trajectories bit-identical across F0-threshold and F0-GV-weight values, F0 trajectory bit-identical across other streams' settings, unvoiced frames rendered as the reference noise and voiced frames as pulse trains on zero-spectrum voices (one of them with log-F0 leaves at 15 Hz); distinct = (voice, utterance, other deviation, threshold); non-trivial = utterance has both voiced and unvoiced states at some threshold");
+    rep.set_rule("SCOPE: F0-stream thresholds {0,.05,.3,.5,.7,.95,1} x (default + every single deviation of the other streams' thresholds {0,1} and of every stream's GV weight {0,2}, and a pitch shift alone or with another stream's threshold) x voices (V0, P1..P3, generated with voicing weights straddling the lattice) x utterances; trajectories via hook 1; oracle: frame voiced iff msd(state(frame)) > threshold[1] with msd from Models::model_stream(1), voiced sets nested along the thresholds, spectrum/low-pass trajectories bit-identical across F0-threshold and F0-GV-weight values, F0 trajectory bit-identical across other streams' settings, unvoiced frames rendered as the reference noise and voiced frames as pulse trains on zero-spectrum voices (one of them with log-F0 leaves at 15 Hz); distinct = (voice, utterance, other deviation, threshold); non-trivial = utterance has both voiced and unvoiced states at some threshold");
     rep.assume("threshold lattice only; state(frame) derived from DurationEstimator::create through the public API");
     let corpus = labels::corpus();
     let mut utts: Vec<Vec<String>> = vec![vec![corpus[41].clone()], corpus[40..43].to_vec(), corpus[0..3].to_vec()];
@@ -47,6 +47,9 @@ pub fn run(tier: Tier) -> i32 {
             others.push(vec![Act::Gv(i, 0.0)]);
             others.push(vec![Act::Gv(i, 2.0)]);
         }
+        // a pitch shift moves the F0 values, not the voicing decision: the threshold law must hold under it as well
+        others.push(vec![Act::HalfTone(3.0)]);
+        others.push(vec![Act::HalfTone(-5.0), Act::Msd(0, 1.0)]);
         if tier == Tier::Thorough {
             others.push(vec![Act::Msd(0, 1.0), Act::Gv(1, 2.0)]);
             others.push(vec![Act::Gv(0, 2.0), Act::Gv(1, 0.0)]);
@@ -146,7 +149,7 @@ pub fn run(tier: Tier) -> i32 {
             // F0 trajectory unchanged by other streams' settings; other streams unchanged by F0 GV weight
             if th == 0.5 {
                 if let Ok(b) = &base_default {
-                    let touches_f0 = other.iter().any(|a| matches!(a, Act::Gv(1, _) | Act::Msd(1, _)));
+                    let touches_f0 = other.iter().any(|a| matches!(a, Act::Gv(1, _) | Act::Msd(1, _) | Act::HalfTone(_)));
                     let touches_0 = other.iter().any(|a| matches!(a, Act::Gv(0, _) | Act::Msd(0, _)));
                     let touches_2 = other.iter().any(|a| matches!(a, Act::Gv(2, _) | Act::Msd(2, _)));
                     rep.cmp(3);
